@@ -14,6 +14,9 @@ COMMON = r'''
 #ifndef VF_CAP
 #define VF_CAP 8          /* capacity of locally created containers (model bound) */
 #endif
+#ifndef VF_ICAP
+#define VF_ICAP 4         /* capacity of every boost::intrusive::list model (model bound) */
+#endif
 typedef void (*vf_fnptr)(void);
 typedef long vf_str;        /* opaque string id: equality only */
 #define VF_STR_EMPTY ((vf_str)0)
@@ -216,6 +219,59 @@ static inline size_t vf_map_%(G)s_erase(struct vf_map_%(G)s* s, %(A)s k)
 }
 '''
 
+IHOOK = "struct vf_ihook { _Bool linked; }; /* boost::intrusive::list_member_hook<>: only is_linked() is observable */\n"
+
+ILIST = r'''
+/* ---- model of boost::intrusive::list<%(S)s, member_hook<.., &%(S)s::%(H)s>>: the linked elements in list order are
+ * d[0..n); an element is in (some) list of this type iff its hook says linked (safe_link mode). Capacity VF_ICAP.
+ * Loops run over the constant capacity (unwound completely): order-preserving and exact, no loop contracts.        ---- */
+struct vf_ilist_%(G)s { size_t n; %(T)s* d[VF_ICAP]; };
+/*FUNCS*/
+static inline size_t vf_ilist_%(G)s_size(const struct vf_ilist_%(G)s* l) { return l->n; }
+static inline _Bool vf_ilist_%(G)s_empty(const struct vf_ilist_%(G)s* l) { return l->n == 0; }
+static inline %(T)s** vf_ilist_%(G)s_begin(struct vf_ilist_%(G)s* l) { return &l->d[0]; }
+static inline %(T)s** vf_ilist_%(G)s_end(struct vf_ilist_%(G)s* l) { return &l->d[l->n]; }
+static inline %(T)s* vf_ilist_%(G)s_front(struct vf_ilist_%(G)s* l) { __CPROVER_assert(l->n > 0, "vf_ilist front on non-empty"); return l->d[0]; }
+static inline %(T)s* vf_ilist_%(G)s_back(struct vf_ilist_%(G)s* l) { __CPROVER_assert(l->n > 0, "vf_ilist back on non-empty"); return l->d[l->n - 1]; }
+static inline void vf_ilist_%(G)s_push_back(struct vf_ilist_%(G)s* l, %(T)s* e)
+{
+  __CPROVER_assert(!e->%(H)s.linked, "vf_ilist push_back: node not already linked (boost safe-link precondition)");
+  __CPROVER_assume(l->n < VF_ICAP); /* model capacity */
+  l->d[l->n] = e; l->n++; e->%(H)s.linked = 1;
+}
+static inline void vf_ilist_%(G)s_push_front(struct vf_ilist_%(G)s* l, %(T)s* e)
+{
+  __CPROVER_assert(!e->%(H)s.linked, "vf_ilist push_front: node not already linked (boost safe-link precondition)");
+  __CPROVER_assume(l->n < VF_ICAP); /* model capacity */
+  for (size_t j = VF_ICAP - 1; j > 0; j--) { if (j <= l->n) l->d[j] = l->d[j - 1]; }
+  l->d[0] = e; l->n++; e->%(H)s.linked = 1;
+}
+static inline %(T)s** vf_ilist_%(G)s_iterator_to(struct vf_ilist_%(G)s* l, %(T)s* e)
+{
+  size_t i = l->n;
+  for (size_t j = VF_ICAP; j > 0; j--) { if (j - 1 < l->n && l->d[j - 1] == e) i = j - 1; }
+  __CPROVER_assert(i < l->n, "vf_ilist iterator_to: element is linked in this list");
+  return &l->d[i];
+}
+static inline %(T)s** vf_ilist_%(G)s_erase(struct vf_ilist_%(G)s* l, %(T)s** it)
+{
+  size_t i = (size_t)(it - &l->d[0]);
+  __CPROVER_assert(i < l->n, "vf_ilist erase: valid iterator");
+  l->d[i]->%(H)s.linked = 0;
+  for (size_t j = 0; j + 1 < VF_ICAP; j++) { if (i <= j && j + 1 < l->n) l->d[j] = l->d[j + 1]; }
+  l->n--;
+  return it;
+}
+static inline void vf_ilist_%(G)s_erase_elem(struct vf_ilist_%(G)s* l, %(T)s* e) { vf_ilist_%(G)s_erase(l, vf_ilist_%(G)s_iterator_to(l, e)); }
+static inline void vf_ilist_%(G)s_pop_front(struct vf_ilist_%(G)s* l) { __CPROVER_assert(l->n > 0, "vf_ilist pop_front on non-empty"); vf_ilist_%(G)s_erase(l, &l->d[0]); }
+static inline void vf_ilist_%(G)s_pop_back(struct vf_ilist_%(G)s* l) { __CPROVER_assert(l->n > 0, "vf_ilist pop_back on non-empty"); l->n--; l->d[l->n]->%(H)s.linked = 0; }
+static inline void vf_ilist_%(G)s_clear(struct vf_ilist_%(G)s* l)
+{
+  for (size_t j = 0; j < VF_ICAP; j++) { if (j < l->n) l->d[j]->%(H)s.linked = 0; }
+  l->n = 0;
+}
+'''
+
 
 def is_structy(ct):
     return ct.startswith("struct ") and not ct.endswith("*")
@@ -234,6 +290,10 @@ def struct_defs(tm):
                     [t[7:]] if is_structy(t) else []))
     for tag, t in tm.seq_insts.items():
         out.append(("vf_seq_" + tag, (SEQ % {"G": tag, "T": t, "EQ": ""}).split("/*FUNCS*/")[0], []))
+    if getattr(tm, "need_ihook", False) or tm.ilist_insts:
+        out.append(("vf_ihook", IHOOK, []))
+    for tag, (t, hook) in tm.ilist_insts.items():
+        out.append(("vf_ilist_" + tag, (ILIST % {"G": tag, "T": t, "S": t[7:], "H": hook}).split("/*FUNCS*/")[0], []))
     for tag, t in tm.set_insts.items():
         out.append(("vf_set_" + tag, (SET % {"G": tag, "T": t}).split("/*FUNCS*/")[0], []))
     for tag, (a, b) in tm.map_insts.items():
@@ -252,6 +312,8 @@ def gen_funcs(tm, lib):
         out.append((SET % {"G": tag, "T": t}).split("/*FUNCS*/")[1])
     for tag, (a, b) in tm.map_insts.items():
         out.append((MAP % {"G": tag, "A": a, "B": b}).split("/*FUNCS*/")[1])
+    for tag, (t, hook) in tm.ilist_insts.items():
+        out.append((ILIST % {"G": tag, "T": t, "S": t[7:], "H": hook}).split("/*FUNCS*/")[1])
     for kind, ct in sorted(lib.minmax):
         out.append(MINMAX[kind] % {"T": ct, "G": ident(ct)})
     return "".join(out)
